@@ -308,14 +308,16 @@ func (e *Evaluator) evalForStmt(node *ast.ForStmt, env *object.Env) object.Objec
 
 	// loop through the block until the user's condition is false
 	for {
-		cond := e.Eval(node.Condition, newEnv)
+		if node.Condition != nil {
+			cond := e.Eval(node.Condition, newEnv)
 
-		if isError(cond) {
-			return cond
-		}
+			if isError(cond) {
+				return cond
+			}
 
-		if !isTruthy(cond) {
-			break
+			if !isTruthy(cond) {
+				break
+			}
 		}
 
 		block := e.Eval(node.Block, newEnv)
@@ -326,29 +328,23 @@ func (e *Evaluator) evalForStmt(node *ast.ForStmt, env *object.Env) object.Objec
 
 		blocks.WriteString(block.String())
 
-		post := e.Eval(node.Post, newEnv)
+		if node.Post != nil {
+			post := e.Eval(node.Post, newEnv)
 
-		if isError(post) {
-			return post
-		}
+			if isError(post) {
+				return post
+			}
 
-		if node.Init == nil || node.Post == nil {
-			continue
-		}
-
-		varName := node.Init.(*ast.AssignStmt).Name.Value
-
-		err := newEnv.Set(varName, post)
-		if err != nil {
-			return e.newError(node, "%s", err.Error())
+			if initStmt, ok := node.Init.(*ast.AssignStmt); ok {
+				err := newEnv.Set(initStmt.Name.Value, post)
+				if err != nil {
+					return e.newError(node, "%s", err.Error())
+				}
+			}
 		}
 
 		if hasBreakStmt(block) {
 			break
-		}
-
-		if hasContinueStmt(block) {
-			continue
 		}
 	}
 
